@@ -80,8 +80,9 @@ theorem cert_steps (A : DFTA σ Q) (hd : A.Det) (c : Q → X) (S : List Q)
         (fun x hx => hq x (List.mem_cons_of_mem _ hx)) he.2 hr1'
       exact ⟨d2, by simpa using hr2, by rw [e2, e1]⟩
 
-theorem read_quotient (A : DFTA σ Q) (hd : A.Det) (c : Q → X)
-    (hc : congruenceCert A c (allStates A) = true) (l : σ) (qs : List Q)
+theorem read_quotient (A : DFTA σ Q) (hd : A.Det) (c : Q → X) (S : List Q)
+    (hS : ∀ x ∈ allStates A, x ∈ S)
+    (hc : congruenceCert A c S = true) (l : σ) (qs : List Q)
     (hqs : ∀ x ∈ qs, x ∈ allStates A) :
     (mapStates c A).read l (qs.map c) = (A.read l qs).map c := by
   have key : ∀ v, ((l, qs.map c), v) ∈ A.rules.map (fun rule => ((rule.1.1, rule.1.2.map c), c rule.2)) →
@@ -91,8 +92,8 @@ theorem read_quotient (A : DFTA σ Q) (hd : A.Det) (c : Q → X)
     simp only [Prod.mk.injEq] at he
     obtain ⟨⟨e1, e2⟩, e3⟩ := he
     subst e1
-    obtain ⟨d', hr', e'⟩ := cert_steps A hd c (allStates A) hc l' args qs [] d
-      (mem_allStates_of_rule A hr).2 hqs e2 (by simpa using hr)
+    obtain ⟨d', hr', e'⟩ := cert_steps A hd c S hc l' args qs [] d
+      (fun a ha => hS a ((mem_allStates_of_rule A hr).2 a ha)) (fun q hq => hS q (hqs q hq)) e2 (by simpa using hr)
     exact ⟨d', (read_eq_some_iff A hd _ _ _).mpr (by simpa using hr'), by rw [e', e3]⟩
   cases h1 : A.read l qs with
   | none =>
@@ -113,17 +114,19 @@ theorem read_quotient (A : DFTA σ Q) (hd : A.Det) (c : Q → X)
       simp only [Option.some.injEq] at hd'
       subst hd'; exact e
 
-theorem run_quotient (A : DFTA σ Q) (hd : A.Det) (c : Q → X)
-    (hc : congruenceCert A c (allStates A) = true) (t : Tree σ) :
+theorem run_quotient (A : DFTA σ Q) (hd : A.Det) (c : Q → X) (S : List Q)
+    (hS : ∀ x ∈ allStates A, x ∈ S)
+    (hc : congruenceCert A c S = true) (t : Tree σ) :
     run (mapStates c A) t = (run A t).map c ∧ ∀ q, run A t = some q → q ∈ allStates A :=
   run_hom A (mapStates c A) c (· ∈ allStates A)
     (fun _ _ _ _ hq => (mem_allStates_of_rule A (AList.lookup_some_mem hq)).1)
-    (fun l qs hqs => read_quotient A hd c hc l qs hqs) t
+    (fun l qs hqs => read_quotient A hd c S hS hc l qs hqs) t
 
-theorem accepts_quotient (A : DFTA σ Q) (hd : A.Det) (c : Q → X)
-    (hc : congruenceCert A c (allStates A) = true) (t : Tree σ) :
+theorem accepts_quotient (A : DFTA σ Q) (hd : A.Det) (c : Q → X) (S : List Q)
+    (hS : ∀ x ∈ allStates A, x ∈ S)
+    (hc : congruenceCert A c S = true) (t : Tree σ) :
     (mapStates c A).accepts t = A.accepts t := by
-  obtain ⟨h1, h2⟩ := run_quotient A hd c hc t
+  obtain ⟨h1, h2⟩ := run_quotient A hd c S hS hc t
   unfold accepts
   rw [h1]
   cases hq : run A t with
@@ -136,7 +139,11 @@ theorem accepts_quotient (A : DFTA σ Q) (hd : A.Det) (c : Q → X)
     · simp only [hf, decide_false, decide_eq_false_iff_not]
       rintro ⟨q', hq', e⟩
       have hq'a : q' ∈ allStates A := List.mem_append_right _ hq'
-      exact hf ((cert_final A c (allStates A) hc q' q hq'a hqa e).mp hq')
+      exact hf ((cert_final A c S hc q' q (hS _ hq'a) (hS _ hqa) e).mp hq')
+
+theorem allStates_subset_stateSet (A : DFTA σ Q) : ∀ x ∈ allStates A, x ∈ stateSet A := by
+  intro x hx
+  exact (mem_foldl_addNew _ _ _).mpr (Or.inr hx)
 
 /-- `minimise` returns the quotient of its input by the final partition -/
 theorem minimiseCore_eq (f : List Q → X) (A : DFTA σ Q) (cls0 cls1 : List Q) (fuel : Nat)
